@@ -149,3 +149,96 @@ fn probe_decompressor_buffer_bounded() {
     let m = MAX_REQ.load(Ordering::Relaxed);
     assert!(m <= 64 * 1024 * 1024, "a {}-byte stream made the reader request a single allocation of {} bytes", s.len(), m);
 }
+
+// ---------------------------------------------------------------- fail-safe decompression probes
+/// source returning at most `k` bytes per read
+struct Dribble<'a> { d: &'a [u8], p: usize, k: usize }
+impl<'a> Read for Dribble<'a> {
+    fn read(&mut self, b: &mut [u8]) -> std::io::Result<usize> {
+        let n = b.len().min(self.k).min(self.d.len() - self.p);
+        b[..n].copy_from_slice(&self.d[self.p..self.p + n]);
+        self.p += n;
+        Ok(n)
+    }
+}
+
+fn compressible(n: usize) -> Vec<u8> { (0..n).map(|i| b"abcdefgh"[i % 8]).collect() }
+fn mixed(n: usize) -> Vec<u8> {
+    // pseudo-random but reproducible, low compressibility
+    let mut x: u32 = 0x1234_5678;
+    (0..n).map(|_| { x ^= x << 13; x ^= x >> 17; x ^= x << 5; (x >> 11) as u8 }).collect()
+}
+
+/// real writer; returns (bytes handed to the destination after `flush` if cut_after_flush else after finalize)
+fn pcomp_data(data: &[u8], finalize: bool) -> Vec<u8> {
+    let mut w = Box::new(CompressionLayerWriter::new(Box::new(RawLayerWriter::new(Vec::new())), &CompressionConfig::default()));
+    w.write_all(data).unwrap();
+    if finalize { w.finalize().unwrap(); } else { w.flush().unwrap(); }
+    w.into_raw()
+}
+
+/// read everything the fail-safe decompressor gives, with output buffers of `bufsz` bytes, stopping at Ok(0) or Err like the repair loop does
+fn pfs_read_all<R: Read>(src: R, bufsz: usize, want: usize) -> Vec<u8> {
+    let mut r = CompressionLayerFailSafeReader::new(Box::new(RawLayerFailSafeReader::new(src))).unwrap();
+    let mut out = Vec::new();
+    let mut b = vec![0u8; bufsz];
+    while out.len() < want {
+        let ask = bufsz.min(want - out.len());
+        match r.read(&mut b[..ask]) {
+            Ok(0) | Err(_) => break,
+            Ok(n) => out.extend_from_slice(&b[..n]),
+        }
+    }
+    out
+}
+
+/// cmpfs.ok0_means_end (C13): a source that returns one byte (or a few) per read gives the same result as memory
+#[test]
+fn probe_failsafe_dribbling_source() {
+    for data in [compressible(300_000), mixed(70_000)] {
+        let s = pcomp_data(&data, true);
+        for k in [1usize, 2, 3, 7, 4095, 4097] {
+            let out = pfs_read_all(Dribble { d: &s, p: 0, k }, 65536, data.len());
+            assert_eq!(out.len(), data.len(), "source giving {k} byte(s) per read: recovered {} of {} bytes", out.len(), data.len());
+            assert!(out == data);
+        }
+    }
+}
+
+/// cmpfs.ok0_means_end / drain (C05, C14): whatever the size of the caller's buffers, an undamaged stream is read completely
+#[test]
+fn probe_failsafe_small_output_buffers() {
+    for data in [compressible(300_000), mixed(70_000)] {
+        let s = pcomp_data(&data, true);
+        for bufsz in [1usize, 8, 9, 4096, 1 << 20] {
+            let out = pfs_read_all(&s[..], bufsz, data.len());
+            assert_eq!(out.len(), data.len(), "output buffers of {bufsz} bytes: recovered {} of {} bytes", out.len(), data.len());
+            assert!(out == data);
+        }
+    }
+}
+
+/// cmpfs.drain (C14): after a flush, everything written before it is recovered from the bytes handed to the destination
+#[test]
+fn probe_failsafe_flush_then_cut() {
+    for data in [compressible(200_000), mixed(70_000), compressible(5)] {
+        let s = pcomp_data(&data, false);
+        for bufsz in [1usize, 8, 4096, 8 << 20] {
+            let out = pfs_read_all(&s[..], bufsz, data.len());
+            assert_eq!(out.len(), data.len(), "flush then cut, output buffers of {bufsz} bytes: recovered {} of {} bytes", out.len(), data.len());
+        }
+    }
+}
+
+/// cmpfs.block_limit (C05): streams of exactly one or two blocks, and one byte more
+#[test]
+fn probe_failsafe_exact_block_boundary() {
+    for n in [U, U + 1, 2 * U] {
+        let data = compressible(n);
+        let s = pcomp_data(&data, true);
+        for bufsz in [8usize << 20, 65536] {
+            let out = pfs_read_all(&s[..], bufsz, data.len());
+            assert_eq!(out.len(), data.len(), "{n} bytes, buffers of {bufsz}: recovered {} bytes", out.len());
+        }
+    }
+}
